@@ -9,6 +9,42 @@ CHECKS = {
          "Sampled executions under an oracle: generated histories on Array and List with hostile indices, slots, ranges and operand kinds are run against a Go-slice model that is compared on every read path after every call. Held-on-what-was-observed, not a proof; histories are sampled and sizes are <= 24.",
          "Trusts the harness model (written from the property statement), the Go runtime and the PRNG; NaN elements excluded (C07/C08).",
          "DESIGN.md 5, 6/C01"),
+ "C02": ("lock-step reference-model monitor + exhaustive insertion-order enumeration (runtime monitoring)",
+         "Sampled histories on Sets under the default collator and harness-implemented reversed/coarse collators against a sorted de-duplicated model, all read paths and every value of a small universe probed after every call; all insertion orders of 0..6 distinct values enumerated. Held on what was observed.",
+         "Only total-preorder collators; for mixed-type Set[any] the expected order is the repository collator's (its laws are C07's).",
+         "DESIGN.md 5, 6/C02"),
+ "C03": ("lock-step reference-model monitor over generated histories (runtime monitoring)",
+         "Sampled histories on Catalogs (string, int, rune, float64, any and pointer keys with equal pointees) against an ordered (key,value) slice; all six views compared after every call; sort/reverse/shuffle must be mapping-preserving permutations. Held on what was observed.",
+         "Trusts the harness model; NaN keys excluded; order of MakeFromMap/SortValues(default)/Shuffle is not constrained here.",
+         "DESIGN.md 5, 6/C03"),
+ "C09": ("exhaustive small-scope execution + random inputs under a permutation/order/termination oracle (runtime monitoring)",
+         "Every array of length 0..9 over 4 values is actually sorted by the real sorter with tagged elements under up to seven rankers (incl. inconsistent ones) and checked for permutation, order and a ranker-call bound; random arrays to length 5000; collection Sort/Reverse/Shuffle compared with the sorter. Exhaustive for the small scope, sampled beyond.",
+         "The call-count bound 10*n*ceil(log2 n)+100 stands for termination.",
+         "DESIGN.md 6/C09"),
+ "C13": ("lock-step reference-model monitor over generated histories (runtime monitoring)",
+         "Sampled histories (every constructor with 0..2*default+1 values, pushes past capacity, pops past empty) against a slice+capacity model with the size<=capacity invariant checked after every call and constructor. Held on what was observed.",
+         "A constructor given more values than the default capacity may panic or enlarge the capacity.",
+         "DESIGN.md 5, 6/C13"),
+ "C14": ("lock-step reference-model monitor over generated histories (runtime monitoring)",
+         "Sampled histories on Maps with four key types against a Go map; unordered views compared as exactly-once multisets after every call; RemoveAll while holding key snapshots and iterators. Held on what was observed.",
+         "Trusts the harness model; view order unconstrained.",
+         "DESIGN.md 5, 6/C14"),
+ "C15": ("exhaustive small-scope execution + random pairs under a mathematical-set oracle (runtime monitoring)",
+         "All 4096 pairs of subsets of a 6-value universe x 4 operations are executed for int and string (and for harness collators), plus random pairs over larger and composite universes; results compared with Go-slice set algebra, operands and results re-observed after mutations. Exhaustive for the stated scope, sampled beyond.",
+         "Both operands carry the same collator.",
+         "DESIGN.md 6/C15"),
+ "C16": ("exhaustive small-scope execution + random cases under law/purity oracles (runtime monitoring)",
+         "All list pairs (3-value alphabet, length<=4), all catalog pairs over ordered subsets of 4 keys, all key sequences of length<=3 incl. absent/repeated keys are executed and compared with the documented laws; purity and independence probed by writing through either side. Exhaustive for the stated scope, sampled beyond.",
+         "A key requested twice appears once at its first position.",
+         "DESIGN.md 6/C16"),
+ "C17": ("exhaustive move-sequence execution against a cursor model + snapshot random walks (runtime monitoring)",
+         "Every move sequence of length 4 (quick) / 6 (thorough) on iterators over 0..4 values is executed against a cursor model; for all seven kinds random walks interleave iterator moves with every mutating operation of the source and a second iterator. Exhaustive for the stated scope, sampled beyond.",
+         "ToSlot below -size may clamp to slot 0 or 1; Catalog iterators yield the catalog's own association objects (by design).",
+         "DESIGN.md 6/C17"),
+ "C18": ("write/observe aliasing probes over a reflection-checked table of entry points (runtime monitoring)",
+         "For each API entry point that accepts or returns a Go array, map or sequence the probe writes through one side at every position and observes the other, sizes 0..5; self-operand bulk operations compared with a copy. The table's completeness is checked by reflection at run time.",
+         "Association objects shared by a Catalog's views are by design; class functions are covered by C15/C16.",
+         "DESIGN.md 6/C18"),
 }
 NOT_YET = "check not built yet in this round (runtime-monitoring design in DESIGN.md section 6)"
 
